@@ -56,7 +56,17 @@ func main() {
 			}
 			line := fmt.Sprintf("%-70s %-9s %s", o.Name, o.Kind, o.Pos)
 			if *run {
-				r := Solve(o.Query(true), *timeout, 0, nil)
+				var r SolverResult
+				if o.Expect == Unsat && o.HasHeavy() {
+					r = Solve(o.QueryMode(false, true), maxInt(5, *timeout/3), 0, nil)
+					if r.Answer != Unsat {
+						r = Solve(o.Query(true), *timeout, 0, nil)
+					} else {
+						r.Backend += "(light)"
+					}
+				} else {
+					r = Solve(o.Query(true), *timeout, 0, nil)
+				}
 				ok := r.Answer == o.Expect
 				line += fmt.Sprintf("  %s %s %.2fs ok=%v", r.Answer, r.Backend, r.Seconds, ok)
 				if !ok {
